@@ -1759,19 +1759,22 @@ func resolveServiceAliases(allServices []*Service, configsUpdated sets.Set[Confi
 
 // SortServicesByCreationTime sorts the list of services in ascending order by their creation time (if available).
 func SortServicesByCreationTime(services []*Service) []*Service {
-	slices.SortStableFunc(services, func(i, j *Service) int {
-		if r := i.CreationTime.Compare(j.CreationTime); r != 0 {
-			return r
-		}
-		// If creation time is the same, then behavior is nondeterministic. In this case, we can
-		// pick an arbitrary but consistent ordering based on name and namespace, which is unique.
-		// CreationTimestamp is stored in seconds, so this is not uncommon.
-		if r := strings.Compare(i.Attributes.Name, j.Attributes.Name); r != 0 {
-			return r
-		}
-		return strings.Compare(i.Attributes.Namespace, j.Attributes.Namespace)
-	})
+	slices.SortStableFunc(services, compareServicesByCreationTime)
 	return services
+}
+
+// compareServicesByCreationTime orders services by creation time, oldest first.
+func compareServicesByCreationTime(i, j *Service) int {
+	if r := i.CreationTime.Compare(j.CreationTime); r != 0 {
+		return r
+	}
+	// If creation time is the same, then behavior is nondeterministic. In this case, we can
+	// pick an arbitrary but consistent ordering based on name and namespace, which is unique.
+	// CreationTimestamp is stored in seconds, so this is not uncommon.
+	if r := strings.Compare(i.Attributes.Name, j.Attributes.Name); r != 0 {
+		return r
+	}
+	return strings.Compare(i.Attributes.Namespace, j.Attributes.Namespace)
 }
 
 // Caches list of authentication policies
